@@ -1,6 +1,6 @@
 package main
 
 func init() {
-	reg("C15", propCfg{Pkg: "./props/c15", RaceThorough: true, RaceIsViolation: true, Rule: "generated inputs vs validity predicates and a compositional/round-trip oracle over structural dumps",
+	reg("C15", propCfg{Pkg: "./props/c15", RaceThorough: true, RaceIsViolation: true, Fuzz: map[string]string{"FuzzC15Parse": "total"}, Rule: "generated inputs vs validity predicates and a compositional/round-trip oracle over structural dumps",
 		Assumptions: assume("columns are counted in runes (the scanner works on []rune)", "'terminates' is checked as 'returns within 20 s' for inputs of at most a few KiB", "structural equality is decided on a reflection dump of the tree including positions (internal/dump)")})
 }
